@@ -204,6 +204,25 @@ theorem C03_double_methods_fit (t : CTy) :
     (isDouble t = false → ordOk (rustType false t) = true) :=
   ⟨isDouble_true_ops t, isDouble_false_ord t⟩
 
+/-- the functions that write a field's `#[builder(...)]` attribute -/
+theorem gen_builder_sources :
+    Gen.CodegenContextSrc.hashes.lookup "Context::builder_config" = some 9363333221388607104 /- "{matchdef{Type::Primitive(def)=>matchdef{PrimitiveType::String|PrimitiveType::Binary=>BuilderConfig::Into,PrimitiveType::Any=>BuilderConfig::Custom{type_:quote!(implconjure_object::serde::Serialize),convert:quote!(|v|conjure_object::Any::new(v).expect(\"valuefailedtoserialize\")),},_=>BuilderConfig::Normal,},Type::Optional(def)=>{ifself.needs_box(def.item_type()){letinto=self.into_ident(this_type);letoption=self.option_ident(this_type);letitem_type=self.rust_type(this_type,def.item_type());letbox_=self.box_ident(this_type);BuilderConfig::Custom{type_:quote!(impl#into<#option<#item_type>>),convert:quote!(|v|v.into().map(#box_::new)),}}else{BuilderConfig::Into}}Type::List(def)=>BuilderConfig::List{item:self.builder_item_config(this_type,def.item_type(),false),},Type::Set(def)=>BuilderConfig::Set{item:self.builder_item_config(this_type,def.item_type(),true),},Type::Map(def)=>BuilderConfig::Map{key:self.builder_item_config(this_type,def.key_type(),true),value:self.builder_item_config(this_type,def.value_type(),false),},Type::Reference(def)=>{ifself.ref_needs_box(def){letbox_=self.box_ident(this_type);BuilderConfig::Custom{type_:self.type_path(this_type,def),convert:quote!(#box_::new),}}else{BuilderConfig::Normal}}Type::External(def)=>self.builder_config(this_type,def.fallback()),}}" -/ ∧
+    Gen.CodegenContextSrc.hashes.lookup "Context::builder_item_config" = some 14454168095124291473 /- "{matchdef{Type::Primitive(primitive)=>matchprimitive{PrimitiveType::String=>BuilderItemConfig::Into{type_:self.string_ident(this_type),},PrimitiveType::Binary=>BuilderItemConfig::Into{type_:quote!(conjure_object::Bytes),},PrimitiveType::Any=>BuilderItemConfig::Custom{type_:quote!(implconjure_object::serde::Serialize),convert:quote!(|v|conjure_object::Any::new(v).expect(\"valuefailedtoserialize\")),},_=>BuilderItemConfig::Normal{type_:self.rust_type_inner(this_type,def,key),},},Type::Optional(def)=>{letoption=self.option_ident(this_type);letitem_type=self.rust_type_inner(this_type,def.item_type(),key);BuilderItemConfig::Into{type_:quote!(#option<#item_type>),}}Type::List(def)=>{letinto_iterator=self.into_iterator_ident(this_type);letitem_type=self.rust_type_inner(this_type,def.item_type(),key);BuilderItemConfig::Custom{type_:quote!(impl#into_iterator<Item=#item_type>),convert:quote!(|v|v.into_iter().collect()),}}Type::Set(def)=>{letinto_iterator=self.into_iterator_ident(this_type);letitem_type=self.rust_type_inner(this_type,def.item_type(),true);BuilderItemConfig::Custom{type_:quote!(impl#into_iterator<Item=#item_type>),convert:quote!(|v|v.into_iter().collect()),}}Type::Map(def)=>{letinto_iterator=self.into_iterator_ident(this_type);letkey_type=self.rust_type_inner(this_type,def.key_type(),true);letvalue_type=self.rust_type_inner(this_type,def.value_type(),key);BuilderItemConfig::Custom{type_:quote!(impl#into_iterator<Item=(#key_type,#value_type)>),convert:quote!(|v|v.into_iter().collect()),}}Type::Reference(def)=>BuilderItemConfig::Normal{type_:self.type_path(this_type,def),},Type::External(def)=>self.builder_item_config(this_type,def.fallback(),key),}}" -/ ∧
+    Gen.CodegenObjectsSrc.hashes.lookup "fn field_builder_attr" = some 6517229059603477348 /- "{letmutinner=matchctx.builder_config(def.type_name(),field.type_()){BuilderConfig::Normal=>quote!(),BuilderConfig::Into=>quote!(into),BuilderConfig::Custom{type_,convert}=>{quote!(custom(type=#type_,convert=#convert))}BuilderConfig::List{item}=>{letitem=builder_item_attr(item);quote!(list(item(#item)))}BuilderConfig::Set{item}=>{letitem=builder_item_attr(item);quote!(set(item(#item)))}BuilderConfig::Map{key,value}=>{letkey=builder_item_attr(key);letvalue=builder_item_attr(value);quote!(map(key(#key),value(#value)))}};if!ctx.is_required(field.type_()){inner=quote!(default,#inner);}ifinner.is_empty(){quote!()}else{quote!(#[builder(#inner)])}}" -/ ∧
+    Gen.CodegenObjectsSrc.hashes.lookup "fn builder_item_attr" = some 7670467204189237290 /- "{matchconfig{BuilderItemConfig::Normal{type_}=>quote!(type=#type_),BuilderItemConfig::Into{type_}=>quote!(type=#type_,into),BuilderItemConfig::Custom{type_,convert}=>{quote!(custom(type=#type_,convert=#convert))}}}" -/ := by decide +kernel
+
+/-- **what a collection field's setters take is what the field holds**: for every Conjure type, the element type the
+staged builder's `push_` / `insert_` / `extend_` setters are declared with (`builder_config`, `builder_item_config`:
+plain, `into`, `impl Serialize`, or an iterator that is collected) is the element type of the field's Rust type — in
+value positions and in key positions (set items, map keys, and what lies below them) alike -/
+theorem C03_builder_items_fit (t : CTy) :
+    fieldFits (builderField t) (rustType false t) = true ∧
+    (∀ key, fits (builderItem key t) (rustType key t) = true) :=
+  ⟨builderField_fits t, fun key => builderItem_fits key t⟩
+
+example : renderField (builderField (.set (.map (.prim .string) (.prim .double)))) = "set:Iter<(String,DoubleKey)>" := by
+  decide +kernel
+
 /-- the rule as it was before D15 was repaired fails exactly this: `set<map<string, double>>` -/
 theorem C03_old_rule_witness :
     usable (rustTypeOld false (.set (.map (.prim .string) (.prim .double)))) = false := old_rule_unusable
